@@ -63,6 +63,34 @@ def run(ctx):
             ctx.known_finding(k, what)
         else:
             ctx.violation(what, f)
+    # 4. TLS handshake messages: every short string inside every frame of HSFrame.tla
+    ml = 6 if thorough else 5
+    with open(os.path.join(d, "TLV_tls.cfg"), "w") as f:
+        f.write("SPECIFICATION Spec\nCONSTANTS\n  Alphabet = {0, 1, 2, 3, 255}\n  MaxLen = %d\n  CorpusFile = \"\"\nINVARIANTS Bounded InBounds NoStuck EmitStr\n" % ml)
+    r = ctx.tlc("TLV", "TLV_tls.cfg", workers=4, timeout=1500)
+    tstrs = markers(r["out"], "STR")
+    with open(os.path.join(d, "HSFrame_run.cfg"), "w") as f:
+        f.write("SPECIFICATION Spec\nCONSTANTS MaxLen = %d\n" % ml)
+    r = ctx.tlc("HSFrame", "HSFrame_run.cfg", workers=1, timeout=600)
+    tmpls = markers(r["out"], "TEMPLATE")
+    if len(tmpls) < 60 * (ml + 1) or len(tstrs) < 3000:
+        raise Infra("HSFrame: %d templates, %d strings" % (len(tmpls), len(tstrs)))
+    tf, sf2, of2 = (os.path.join(ctx.work, n) for n in ("tmpl.ndjson", "tstr.ndjson", "frames.json"))
+    write_ndjson(tf, tmpls)
+    write_ndjson(sf2, [x["s"] for x in tstrs])
+    ctx.harness(["c18-frames", tf, sf2, of2], timeout=6 * 3600 if thorough else 3000)
+    fr = json.load(open(of2))
+    ctx.log("handshake frames: %d templates x strings up to %d bytes = %d messages, %d parser calls" % (fr["templates"], ml, fr["messages"], fr["calls"]))
+    for f in fr["fails"] or []:
+        what = "%s on framed message '%s': %s: %s (input %s)" % (f["Decoder"], f["Kind"], f["What"], f["Detail"].split("\n")[0][:200], f["Input"][:160])
+        k = ctx.match_known({"decoder": f["Decoder"], "kind": f["What"], "item": f["Kind"]})
+        if k:
+            ctx.known_finding(k, what)
+        else:
+            ctx.violation(what, f)
+    res["calls"] += fr["calls"]
+    res["inputs"] += fr["messages"]
+    res["families"]["tls_frames"] = fr["messages"]
     ctx.cov["evaluations"] = res["calls"]
     ctx.cov["distinct_nontrivial"] = res["inputs"]
     ctx.cov["exhaustive"] = False
